@@ -1,20 +1,226 @@
 package vsim
 
-// RawPeer is a harness task that speaks the protocol through the independent
+import (
+	"context"
+	"errors"
+	"fmt"
+	"io"
+	"time"
+
+	"vsim/wire"
+)
+
+// RawPeer is a harness party that speaks the protocol through the independent
 // codec only (package wire): the hostile party, the protocol-level observer,
 // and a conforming foreign implementation.
 type RawPeer struct {
 	w     *World
 	Name  string
 	Host  string
-	conns []*Conn
+	conns []*RawConn
+	L     *Listener
+}
+
+// RawConn is one socket of a raw peer.
+type RawConn struct {
+	p      *RawPeer
+	c      *Conn
+	nextID uint32
+	Got    []*wire.Frame // every frame read so far
+}
+
+func (w *World) newRawPeer(name, host string) *RawPeer {
+	rp := &RawPeer{w: w, Name: name, Host: host}
+	w.RawPeers = append(w.RawPeers, rp)
+	return rp
 }
 
 // CloseAll closes every socket the raw peer still holds.
 func (r *RawPeer) CloseAll() {
 	for _, c := range r.conns {
-		if !c.Closed() {
-			c.Close()
+		if !c.c.Closed() {
+			c.c.Close()
 		}
 	}
+	if r.L != nil && !r.L.closed {
+		r.L.Close()
+	}
+}
+
+// Dial opens a socket to a listening address (no handshake yet).
+func (r *RawPeer) Dial(to string) (*RawConn, error) {
+	ctx, cancel := context.WithTimeout(context.Background(), 5*time.Second)
+	defer cancel()
+	nc, err := r.w.Net.Dial(ctx, r.Host, to)
+	if err != nil {
+		return nil, err
+	}
+	c := nc.(*Conn)
+	c.Owner = r.Name
+	rc := &RawConn{p: r, c: c, nextID: 1}
+	r.conns = append(r.conns, rc)
+	return rc, nil
+}
+
+// Listen makes the raw peer accept connections; each is handed to serve.
+func (r *RawPeer) Listen(port int, serve func(c *RawConn)) string {
+	hp := fmt.Sprintf("%s:%d", r.Host, port)
+	l, err := r.w.Net.Listen(hp)
+	if err != nil {
+		panic("harness: raw listen: " + err.Error())
+	}
+	r.L = l
+	go func() {
+		for {
+			nc, err := l.Accept()
+			if err != nil {
+				return
+			}
+			c := nc.(*Conn)
+			c.Owner = r.Name
+			rc := &RawConn{p: r, c: c, nextID: 1}
+			r.conns = append(r.conns, rc)
+			go serve(rc)
+		}
+	}()
+	return hp
+}
+
+func (c *RawConn) ID() uint32 { id := c.nextID; c.nextID++; return id }
+
+// Send writes raw bytes.
+func (c *RawConn) Send(b []byte) error {
+	_, err := c.c.Write(b)
+	return err
+}
+
+// ReadFrame reads one frame (waiting at most d of simulated time).
+func (c *RawConn) ReadFrame(d time.Duration) (*wire.Frame, error) {
+	c.c.SetReadDeadline(time.Now().Add(d))
+	defer c.c.SetReadDeadline(time.Time{})
+	hdr := make([]byte, wire.HeaderSize)
+	if _, err := io.ReadFull(c.c, hdr); err != nil {
+		return nil, err
+	}
+	sz := wire.FrameSize(hdr)
+	if sz < wire.HeaderSize {
+		return nil, fmt.Errorf("raw: peer sent frame size %d", sz)
+	}
+	raw := make([]byte, sz)
+	copy(raw, hdr)
+	if _, err := io.ReadFull(c.c, raw[wire.HeaderSize:]); err != nil {
+		return nil, err
+	}
+	f, err := wire.Decode(raw)
+	if f != nil {
+		c.Got = append(c.Got, f)
+	}
+	return f, err
+}
+
+var stdInitParams = func(hostPort, proc string) []wire.KV {
+	return []wire.KV{{K: "host_port", V: hostPort}, {K: "process_name", V: proc}, {K: "tchannel_language", V: "raw"}, {K: "tchannel_language_version", V: "1"}, {K: "tchannel_version", V: "1.0"}}
+}
+
+// Handshake performs a correct client-side handshake.
+func (c *RawConn) Handshake() error {
+	id := c.ID()
+	if err := c.Send(wire.EncInit(wire.TInitReq, id, 2, stdInitParams("0.0.0.0:0", c.p.Name))); err != nil {
+		return err
+	}
+	f, err := c.ReadFrame(5 * time.Second)
+	if err != nil {
+		return err
+	}
+	if f.Type != wire.TInitRes || f.ID != id || f.Version != 2 {
+		return fmt.Errorf("raw: bad init res %s", f)
+	}
+	return nil
+}
+
+// ServerHandshake performs a correct server-side handshake.
+func (c *RawConn) ServerHandshake(hostPort string) error {
+	f, err := c.ReadFrame(5 * time.Second)
+	if err != nil {
+		return err
+	}
+	if f.Type != wire.TInitReq {
+		return fmt.Errorf("raw: expected init req, got %s", f)
+	}
+	return c.Send(wire.EncInit(wire.TInitRes, f.ID, 2, stdInitParams(hostPort, c.p.Name)))
+}
+
+// RawCallResult is the outcome of a conforming raw call.
+type RawCallResult struct {
+	Args    [3][]byte
+	ErrCode int // -1 = none
+	ErrMsg  string
+	ResCode byte
+	Frames  []*wire.Frame
+	Err     error
+}
+
+// Call performs a complete, conforming call and collects the response frames
+// of its id (other ids are ignored).
+func (c *RawConn) Call(spec wire.CallSpec, wait time.Duration) *RawCallResult {
+	res := &RawCallResult{ErrCode: -1}
+	spec.Type = wire.TCallReq
+	if spec.ID == 0 {
+		spec.ID = c.ID()
+	}
+	for _, fr := range wire.EncCall(spec) {
+		if err := c.Send(fr); err != nil {
+			res.Err = err
+			return res
+		}
+	}
+	re := wire.NewReassembler()
+	deadline := time.Now().Add(wait)
+	for {
+		left := time.Until(deadline)
+		if left <= 0 {
+			res.Err = errors.New("raw: no complete response in time")
+			return res
+		}
+		f, err := c.ReadFrame(left)
+		if err != nil {
+			res.Err = err
+			return res
+		}
+		if f.ID != spec.ID {
+			continue
+		}
+		res.Frames = append(res.Frames, f)
+		switch f.Type {
+		case wire.TError:
+			res.ErrCode = int(f.ErrCode)
+			res.ErrMsg = f.Message
+			return res
+		case wire.TCallRes, wire.TCallResCont:
+			if f.Type == wire.TCallRes {
+				res.ResCode = f.ResCode
+			}
+			re.Add(f)
+			if re.Err != nil {
+				res.Err = re.Err
+				return res
+			}
+			if re.Done {
+				res.Args = re.Args
+				return res
+			}
+		}
+	}
+}
+
+// rawEchoRequest builds a conforming call to the generic echo handler.
+func rawEchoRequest(w *World, service, tag string, pad, a3 int, csum byte, ttlms uint32) (wire.CallSpec, []byte, []byte) {
+	rec := &CallRec{Spec: CallSpec{Tag: tag, Mode: "echo", Rs2: -1, Rs3: -1}}
+	p2 := payload(tag, 2, pad)
+	arg2 := append([]byte(rec.cmd()+"\n"), p2...)
+	arg3 := payload(tag, 3, a3)
+	want2, want3 := expectedResponse(tag, -1, -1, p2, arg3)
+	spec := wire.CallSpec{TTL: ttlms, Service: service, Headers: []wire.KV{{K: "cn", V: "rawcaller"}, {K: "as", V: "raw"}}, CsumType: csum, Args: [3][]byte{[]byte("echo"), arg2, arg3}}
+	_ = w
+	return spec, want2, want3
 }
